@@ -38,8 +38,8 @@ Definition rs_recreate (last hb : N) : bool := N.ltb (last) (hb).
 (* lib.rs, fn reset_node_state_if_update: node_state.max_version() >= max_version *)
 Definition rs_catchup_uptodate (cmax mx : N) : bool := N.leb (mx) (cmax).
 
-(* fallback: the guard of fn reset_node_state_if_update was not located in the sources; this is the model's own guard *)
-Definition rs_catchup_obsolete (mx cgc : N) : bool := N.ltb mx cgc.
+(* lib.rs, fn reset_node_state_if_update: max_version < node_state.last_gc_version() *)
+Definition rs_catchup_obsolete (mx cgc : N) : bool := N.ltb (mx) (cgc).
 
 (* state.rs, fn gc_keys_marked_for_deletion: now < deleted_start_instant + grace_period *)
 Definition rs_gc_keep (now t grace : Z) : bool := Z.ltb (now) (Z.add (t) (grace)).
